@@ -375,11 +375,60 @@ func genC06(out *caseWriter, seed uint64, n int, args []string) error {
 		if cmd == "transcode" {
 			cfg.Val = "CHF"
 		}
-		in := fmt.Sprintf("%s %d %d # %s | %s", cmd, 8, r.next()%1000000, cfg.Enc(), j.Enc())
+		if i%4 == 3 {
+			// exact ties between sibling report nodes in a valued report sorted by weight: a group with
+			// 3-6 children holding fractional amounts and a sibling holding exactly their sum (the order
+			// of equal-weight siblings and the summation order of the children's weights must not show;
+			// seeded change C06-float-sort-weight was missed without this stream)
+			j, cfg = genC06Ties(r, o)
+			cmd = "balance"
+		}
+		runs := 8
+		if i%4 == 3 {
+			runs = 16
+		}
+		in := fmt.Sprintf("%s %d %d # %s | %s", cmd, runs, r.next()%1000000, cfg.Enc(), j.Enc())
 		items = append(items, caseIn{fmt.Sprintf("C06-%d-%d", seed, i), "C06.repeat", in})
 	}
 	out.addBatch(items)
 	return nil
+}
+
+// genC06Ties: Assets:<G1>:<k children> with two-decimal amounts, Assets:<G2> (leaf or one child) with exactly the
+// sum, optionally a third group with the same sum again; CHF only, valued in CHF, weighted sort.
+func genC06Ties(r *rng, o genOpts) (Journal, BalCfg) {
+	groups := []string{"Deposits", "Liquid", "Alpha", "Zeta", "Bank", "Broker", "Cash", "Mid"}
+	leaves := []string{"Holiday", "Car", "Gifts", "A1", "B2", "C3", "Xmas", "Tax", "Rent", "Zoo"}
+	gp := r.perm(len(groups))
+	d0 := dateStr(o.startDate)
+	d1 := dateStr(o.startDate.AddDate(0, 0, 1))
+	var j Journal
+	j = append(j, Dir{Kind: 'O', Date: d0, Acc: "Equity:Equity"})
+	ngroups := 2 + r.intn(2)
+	k := r.rangeInt(3, 6)
+	lp := r.perm(len(leaves))
+	cents := 0
+	for i := 0; i < k; i++ {
+		c := r.rangeInt(1, 99999)
+		if r.chance(50) {
+			c = r.rangeInt(1, 9)*1010 // 10.10, 20.20, ...
+		}
+		cents += c
+		a := "Assets:" + groups[gp[0]] + ":" + leaves[lp[i]]
+		j = append(j, Dir{Kind: 'O', Date: d0, Acc: a})
+		j = append(j, Dir{Kind: 'T', Date: d1, Desc: "pot", Bookings: []Booking{{"Equity:Equity", a, fmt.Sprintf("%d.%02d", c/100, c%100), "CHF"}}})
+	}
+	for g := 1; g < ngroups; g++ {
+		a := "Assets:" + groups[gp[g]]
+		if r.chance(50) {
+			a += ":" + leaves[lp[k+g]]
+		}
+		j = append(j, Dir{Kind: 'O', Date: d0, Acc: a})
+		j = append(j, Dir{Kind: 'T', Date: d1, Desc: "same", Bookings: []Booking{{"Equity:Equity", a, fmt.Sprintf("%d.%02d", cents/100, cents%100), "CHF"}}})
+	}
+	r.shuffle(len(j), func(a, b int) { j[a], j[b] = j[b], j[a] })
+	cfg := BalCfg{From: "-", To: dateStr(o.startDate.AddDate(0, 0, 5)), Interval: "once", Val: "CHF", Alpha: false, CSV: r.chance(50)}
+	return j, cfg
 }
 
 // dropConflictingPrices keeps the first price declaration per (date, unordered pair)
